@@ -152,4 +152,147 @@ theorem fftF_dft (A : Arith R) (hA : RingOps A) (ρ : R) (rd : ℕ → R) (maxN 
   rw [stagesF_dft A hA ρ x m _ hρ hW m 0 _ (by omega) (blockInv_init ρ x m) p hp]
 
 end Exact
+
+section ComplexInstance
+open Complex
+
+/-- Exact complex arithmetic: every field is the real-number meaning of the corresponding operation of
+    `complex.rs` / `num_traits` (`tw i cur = (cos x, sin x)` with `x = π·i·(1/cur)`; `round` is exact on integers). -/
+noncomputable def arithC : Arith ℂ where
+  zero := 0
+  one := 1
+  i8 := I / 8
+  add x y := x + y
+  sub x y := x - y
+  mul x y := x * y
+  conj := starRingEnd ℂ
+  half z := z * (1 / 2)
+  scaleInv n z := z * (1 / (n : ℂ))
+  tw i cur := ⟨Real.cos (Real.pi * i * (1 / cur)), Real.sin (Real.pi * i * (1 / cur))⟩
+  setRe c v := ⟨(v : ℝ), c.im⟩
+  setIm c v := ⟨c.re, (v : ℝ)⟩
+  roundRe c := round c.re
+  roundIm c := round c.im
+
+theorem ringOps_arithC : RingOps arithC := ⟨fun _ _ => rfl, fun _ _ => rfl, fun _ _ => rfl⟩
+
+/-- `e^{2πi/2^k}` -/
+noncomputable def zeta (k : ℕ) : ℂ := exp (2 * Real.pi * I / ((2^k : ℕ) : ℂ))
+
+theorem zeta_pow_two_pow (k : ℕ) : zeta k ^ (2^k) = 1 := by
+  unfold zeta
+  rw [← exp_nat_mul]
+  have h : ((2^k : ℕ) : ℂ) ≠ 0 := by exact_mod_cast (Nat.two_pow_pos k).ne'
+  rw [mul_div_cancel₀ _ h]
+  exact exp_two_pi_mul_I
+
+theorem zeta_succ_sq (k : ℕ) : zeta (k+1) ^ 2 = zeta k := by
+  unfold zeta
+  rw [← exp_nat_mul]
+  congr 1
+  have h : ((2^k : ℕ) : ℂ) ≠ 0 := by exact_mod_cast (Nat.two_pow_pos k).ne'
+  push_cast
+  rw [pow_succ]
+  field_simp
+
+theorem zeta_succ_half (k : ℕ) : zeta (k+1) ^ (2^k) = -1 := by
+  unfold zeta
+  rw [← exp_nat_mul]
+  have h : ((2 : ℂ)^k) ≠ 0 := pow_ne_zero _ two_ne_zero
+  have : ((2^k : ℕ) : ℂ) * (2 * Real.pi * I / ((2^(k+1) : ℕ) : ℂ)) = Real.pi * I := by
+    push_cast
+    rw [pow_succ]
+    field_simp
+  rw [this, exp_pi_mul_I]
+
+theorem tw_eq (i k : ℕ) : arithC.tw i (2^k) = zeta (k+1) ^ i := by
+  unfold zeta
+  rw [← exp_nat_mul]
+  have h : ((2 : ℂ)^k) ≠ 0 := pow_ne_zero _ two_ne_zero
+  have e : (i : ℂ) * (2 * Real.pi * I / ((2^(k+1) : ℕ) : ℂ)) = ((Real.pi * i * (1 / (2^k : ℕ)) : ℝ) : ℂ) * I := by
+    push_cast
+    rw [pow_succ]
+    field_simp
+  rw [e]
+  apply Complex.ext
+  · rw [exp_ofReal_mul_I_re]; rfl
+  · rw [exp_ofReal_mul_I_im]; rfl
+
+/-- The canonical twiddle table in exact arithmetic: `w[j] = e^{2πi·j/2^k}`. -/
+theorem wC_eq : ∀ (k j : ℕ), j ≤ 2^k → wC arithC.tw arithC.one k j = zeta k ^ j := by
+  intro k
+  induction k with
+  | zero =>
+    intro j _
+    have : zeta 0 = 1 := by simpa using zeta_pow_two_pow 0
+    rw [this, one_pow]; rfl
+  | succ k ih =>
+    intro j hj
+    rw [wC]
+    by_cases h0 : j = 0
+    · subst h0; simp; rfl
+    · by_cases hl : j = 2^(k+1)
+      · subst hl; rw [if_pos (Or.inr rfl), zeta_pow_two_pow]; rfl
+      · rw [if_neg (by tauto)]
+        by_cases hev : j % 2 = 0
+        · rw [if_pos hev, ih (j/2) (by rw [pow_succ] at hj; omega), ← zeta_succ_sq, ← pow_mul]
+          congr 1; omega
+        · rw [if_neg hev, tw_eq]
+
+
+theorem stageTw_fwd (m t j : ℕ) (ht : t < m) (hj : j < 2^t) :
+    stageTw (wC arithC.tw arithC.one m) (2^m) false t j = zeta m ^ (j * 2^(m-t-1)) := by
+  unfold stageTw
+  simp only [Bool.false_eq_true, if_false]
+  rw [twIdx_fwd m t j ht]
+  apply wC_eq
+  have : (2^m : ℕ) = 2^t * 2 * 2^(m-t-1) := by
+    rw [← Nat.pow_succ, ← Nat.pow_add]; congr 1; omega
+  rw [this]
+  exact Nat.mul_le_mul_right _ (by omega)
+
+theorem stageTw_inv (m t j : ℕ) (ht : t < m) (hj : j < 2^t) :
+    stageTw (wC arithC.tw arithC.one m) (2^m) true t j = (zeta m)⁻¹ ^ (j * 2^(m-t-1)) := by
+  unfold stageTw
+  simp only [if_true]
+  rw [twIdx_inv m t j ht hj, wC_eq m _ (Nat.sub_le _ _)]
+  have hle : j * 2^(m-t-1) ≤ 2^m := by
+    have : (2^m : ℕ) = 2^t * 2 * 2^(m-t-1) := by
+      rw [← Nat.pow_succ, ← Nat.pow_add]; congr 1; omega
+    rw [this]
+    exact Nat.mul_le_mul_right _ (by omega)
+  have hz : zeta m ≠ 0 := by unfold zeta; exact exp_ne_zero _
+  rw [inv_pow]
+  apply eq_inv_of_mul_eq_one_left
+  rw [← pow_add, Nat.sub_add_cancel hle, zeta_pow_two_pow]
+
+theorem zeta_half (m' : ℕ) : zeta (m'+1) ^ (2^m') = -1 := zeta_succ_half m'
+
+theorem zeta_inv_half (m' : ℕ) : (zeta (m'+1))⁻¹ ^ (2^m') = -1 := by
+  rw [inv_pow, zeta_succ_half]; norm_num
+
+/-- **`fft_internal` is the DFT** (exact complex arithmetic): forward `∑ v_s ζ^{ps}`, inverse
+    `(1/n) ∑ v_s ζ^{-ps}`, `ζ = e^{2πi/n}`, `n = 2^m`. -/
+theorem fftRef_dft (m : ℕ) (inv : Bool) (v : Array ℂ) (hv : v.size = 2^m) :
+    (fftRef arithC m inv v).size = 2^m ∧
+    ∀ p, p < 2^m → rdA arithC (fftRef arithC m inv v) p
+      = if inv then dft (zeta m)⁻¹ (2^m) (rdA arithC v) p * (1 / ((2^m : ℕ) : ℂ))
+        else dft (zeta m) (2^m) (rdA arithC v) p := by
+  unfold fftRef
+  obtain ⟨h1, h2⟩ := fftCore_spec arithC (wC arithC.tw arithC.one m) (revC m) (2^m) m inv v hv
+    (fun i _ => revC_lt m i) (revC_revC m) (revC_zero m)
+  refine ⟨h1, fun p hp => ?_⟩
+  rw [h2 p hp]
+  cases inv with
+  | false =>
+    rw [fftF_dft arithC ringOps_arithC (zeta m) _ (2^m) m false
+      (fun m' h => by subst h; exact zeta_half m') (fun t j ht hj => stageTw_fwd m t j ht hj) _ p hp]
+    simp
+  | true =>
+    rw [fftF_dft arithC ringOps_arithC (zeta m)⁻¹ _ (2^m) m true
+      (fun m' h => by subst h; exact zeta_inv_half m') (fun t j ht hj => stageTw_inv m t j ht hj) _ p hp]
+    simp only [if_true]
+    rfl
+
+end ComplexInstance
 end Rlib.Fft
